@@ -149,11 +149,29 @@ def gen_real(c):
     mcfg['nlayers'] = c.randint(2, 7)
     mcfg['opac']['ngrid'] = c.randint(12, 30)
     wide = c.random() < 0.6 and len(mcfg['molecules']) >= 1
+    twop = None
+    if mcfg['molecules'] and c.random() < 0.3:
+        # an abundance that varies with altitude: the atmosphere can be
+        # invalid (sum above unity) in some layers only
+        m0 = mcfg['molecules'][0]
+        m0['gas'] = {'kind': 'twopoint', 'surface': m0['mix'],
+                     'top': m0['mix'] * 10 ** c.uniform(-3, -1)}
+        twop = m0['name']
     fit = S.gen_fit(c, mcfg, nmax=4, rich=True)
+    if twop:
+        fit = [f for f in fit if f['name'] != twop]
+        fit.append({'name': twop + '_surface',
+                    'mode': c.choice(['linear', 'log']), 'set_prior': True,
+                    'prior': c.choice([
+                        {'kind': 'LogUniform', 'args': {'lin_bounds': [1e-7, 3.0]}},
+                        {'kind': 'Uniform', 'args': {'bounds': [1e-7, 2.0]}}])})
+        wide = True
     if wide:
         # make the invalid region (sum of mixing ratios > 1) reachable
         have = {f['name'] for f in fit}
         for m in mcfg['molecules'][:2]:
+            if m['name'] == twop:
+                continue
             spec = c.choice([
                 {'kind': 'LogUniform', 'args': {'lin_bounds': [1e-7, 0.95]}},
                 {'kind': 'Uniform', 'args': {'bounds': [1e-7, 0.95]}}])
@@ -471,6 +489,16 @@ def execute(case, keep_text=False):
             return 'invalid', None
         except Exception as e:     # not an invalid-atmosphere signal
             return 'skip', repr(e)
+        if not is_toy:
+            # the definition, not the twin's own verdict: the mixing ratios
+            # of the added gases sum above unity in ANY layer
+            gases_ = list(getattr(m2.chemistry, '_gases', []))
+            if gases_:
+                tot_ = np.sum([np.asarray(g_.mixProfile, dtype=float)
+                               for g_ in gases_], axis=0)
+                if np.any(tot_ > 1.0):
+                    out.bump('probes', 'invalid_by_definition_only')
+                    return 'invalid', None
         if all(not math.isfinite(float(v)) for v in ym):
             # e.g. NaN temperatures: every native point, hence every bin and
             # chi-squared, is non-finite whatever the binning arithmetic
